@@ -50,7 +50,10 @@ RULE_ADDED = (
               ' '
               'Round 18: one dialogue per run in which the device asks for a large transaction '
               'one byte at a time - 2^17 exchanges in one part (quick), more than 2^20 '
-              '(thorough); nothing bounds the number of exchanges of a part. ')
+              '(thorough); nothing bounds the number of exchanges of a part. '
+              ' '
+              'Round 20: 30% of the requests with the members of their JSON objects in another '
+              'order (reversed, sorted, shuffled). ')
 RULE = RULE + " " + RULE_ADDED.strip()
 ASSUMPTIONS = [
     "device model and fake HID transport are trusted (pv/simdev); they follow the framing only",
@@ -248,6 +251,11 @@ def build(c, spec, prev=None):
     else:
         out["sig"] = der.make_sig(rng, shape)[0]
     out["sigshape"] = shape
+    orng = random.Random(c["seed"] ^ 0x0bde)
+    if orng.random() < 0.3:
+        # the members of the request's objects written in another order
+        out["req"] = rq.reorder_members(orng, out["req"])
+        out["members_reordered"] = True
     return out
 
 
@@ -441,6 +449,8 @@ def run_case(acc, c, spec, stacks):
     b = build(c, spec, prev[1] if prev else None)
     if "tx" in b and len(b["tx"]["raw"]) >= 2 ** 24:
         acc.count("transactions_of_16_MiB_or_more")
+    if b.get("members_reordered"):
+        acc.count("requests_with_their_members_in_another_order")
     if c.get("same_tx_as_previous"):
         acc.count("same_tx_asked_again")
         if b.get("near_copy"):
